@@ -63,6 +63,17 @@ theorem detect_beyond_limit (ext : Ext) (T : Tree Info) (x y : Bytes) (lim : Nat
 theorem no_input_writes :
     Gen.Writes.indexWrites = ["charset.fromHTML:attrList[ks]", "charset.fromHTML:val[i]"] := by decide
 
+/-- **regenerated obligation**: the only package-level variables of the four detection packages
+    that are not node / signature constructions — i.e. the only places where anything could
+    survive from one detection to the next — are the two read-only tables of charset.go, the
+    query table, the limit with its default, the tree lock, and the two pools (whose contents are
+    re-initialised on every use: `reset_clears_all`, `bufio.Reader.Reset`).  A new cache, memo
+    table or pooled buffer shows up here -/
+theorem no_hidden_state :
+    Gen.Writes.stateVars = ["charset.boms=composite:<*ast.ArrayType>", "charset.textChars=composite:<*ast.ArrayType>",
+      "json.parserPool=composite:sync.Pool", "json.queries=composite:<*ast.MapType>", "magic.readerPool=composite:sync.Pool",
+      "mimetype.defaultLimit=value", "mimetype.mu=composite:sync.RWMutex", "mimetype.readLimit=value"] := by decide
+
 /- non-vacuity: a dirty pooled state (deep path, satisfied query) gives the fresh answer -/
 example : parseWith { ib := 99, currPath := [[1], [2]], firstToken := 128, querySatisfied := true }
     4096 q_geo [0x7B, 0x7D] = parseWith PState.fresh 4096 q_geo [0x7B, 0x7D] := rfl
